@@ -4,6 +4,7 @@
 -/
 import Cog.Drv.OMapDrv
 import Cog.Drv.VirDrv
+import Cog.Drv.PassDrv
 import Cog.Drv.XformDrv
 import Cog.Drv.BuilderDrv
 import Cog.Drv.SchemaStore
@@ -15,6 +16,10 @@ def handle (line : String) : String :=
   match line.splitOn " " with
   | "omap" :: rest => omapLine (" ".intercalate rest)
   | "vir" :: rest => virLine (" ".intercalate rest)
+  | "lpass" :: rest => lpassLine (" ".intercalate rest)
+  | "chain" :: rest => chainLine (" ".intercalate rest)
+  | "nf" :: rest => nfLine (" ".intercalate rest)
+  | "ucc" :: rest => uccLine (" ".intercalate rest)
   | "xform" :: rest => xformLine (" ".intercalate rest)
   | "fromast" :: rest => fromastLine (" ".intercalate rest)
   | _ => "bad-request"
